@@ -205,8 +205,17 @@ func (in *Interp) structEq(a, b Value) *Term {
 	case *Lazy, *Iface:
 		y, ok := b.(*Lazy)
 		if ok {
-			if xl, ok2 := a.(*Lazy); ok2 && xl == y {
-				return Boolc(true)
+			if xl, ok2 := a.(*Lazy); ok2 {
+				if xl == y {
+					return Boolc(true)
+				}
+				// a still-undecided value and its (clone / codec) copy: equal by the lemma that
+				// cloneValue / ConvertValue preserve values, which harness H_LEM_clone checks on the
+				// real code in the same run
+				if lazyRoot(xl) == lazyRoot(y) && xl.Forced == nil && y.Forced == nil {
+					in.reached["lemma:clone-preserves-value"] = true
+					return Boolc(true)
+				}
 			}
 		}
 		fa := in.force(a)
@@ -272,6 +281,20 @@ func (in *Interp) structEq(a, b Value) *Term {
 
 func (in *Interp) lungoCall(fr *frame, fn *ssa.Function, full string, args []Value, pos token.Pos) (Value, bool) {
 	switch full {
+	case "github.com/256dpi/lungo/bsonkit.cloneValue", "github.com/256dpi/lungo/bsonkit.ConvertValue":
+		// Deferred execution of a pure copy: cloning a value whose type is still undecided yields a
+		// value that becomes the REAL function's result as soon as the source is forced (and before
+		// anybody can mutate the source). Avoids splitting on every type tag at clone time.
+		if in.cfg.Params["eagerclone"] == 0 {
+			if l, ok := args[0].(*Lazy); ok && l.Forced == nil {
+				c := in.lazyCopy(l, &Closure{Fn: fn})
+				if fn.Name() == "ConvertValue" {
+					return Tuple{c, &Iface{}}, true
+				}
+				return c, true
+			}
+		}
+		return nil, false
 	case "github.com/256dpi/lungo/bsonkit.Transform":
 		// codec stub: document in, structure-preserving copy out
 		v := in.force(args[0])
